@@ -38,7 +38,7 @@ ASSUMPTIONS = [
     "explicit vectors are exact eigenvectors up to rounding; implicit energies are >= 1 away from explicit ones",
     "in non-Hermitian mode implicit and complete-basis runs follow the same recurrences, so they are compared even inside the class of known finding K1",
 ]
-REQUIRED_CLASSES = {"all": ["solver=direct", "solver=kpm", "biorthogonal", "complex", "degenerate-explicit", "explicit-blocks=2", "selection", "sparse-h0", "params=2", "kpm-default-options"]}
+REQUIRED_CLASSES = {"all": ["solver=direct", "solver=kpm", "biorthogonal", "complex", "degenerate-explicit", "explicit-blocks=2", "selection", "sparse-h0", "params=2", "kpm-default-options", "real-h0-complex-pairs"]}
 
 
 @st.composite
@@ -92,6 +92,8 @@ def build_inputs(case, out=None):
     labels += ["solver=" + ("kpm" if kpm else "direct"), f"params={k}", f"explicit-blocks={len(sizes)}"]
     if nh:
         labels.append("biorthogonal")
+        if np.isrealobj(H0):
+            labels.append("real-h0-complex-pairs")
     if c["complex"]:
         labels.append("complex")
     pert = []
